@@ -118,6 +118,7 @@ namespace cds { namespace gc { namespace dhp {
 #include <dtor.inc>
 #include <alloc_thread_data.inc>
 #include <free_thread_data.inc>
+    typedef void* const vx_cvoidp;
     namespace vx_scan_helpers      // the anonymous namespace of src/dhp.cpp (unique namespaces are not supported by the front end): body-only fragment under a named one
 #include <scan_helpers.inc>
     using namespace vx_scan_helpers;
